@@ -42,7 +42,7 @@ def describe(tier):
         'ports / ICMP': 'every int (unbounded) and every string of up to %d '
         'characters over digits, signs, underscore, whitespace, dot, '
         'letters; None' % (4 if q else 6),
-        'mac': 'every string of length %s over [09afAFgG:-\\n. ]' % (
+        'mac': 'every string of length %s over [09afAFgG:-\\n. _[`@]' % (
             '16..18' if q else '0,1,15..19'),
         'ipv6 scope': 'address placeholder + 0..18 characters over [%a1] '
         '(scope ids of length 0..17, several % signs)',
